@@ -81,6 +81,25 @@ def client_in_progress(client: t.Any, mid: int) -> t.Optional[str]:
     return "search"
 
 
+def bind_allowed(sess_obj: t.Any, side: str) -> t.Any:
+    """Would a bind be possible right now?  client: does bind_simple() succeed on a clone;
+    server: is a BindRequest accepted by a clone.  -> True / False / '!<ExceptionType>'"""
+    LDAPError, ProtocolError = errors()
+    c = copy.deepcopy(sess_obj)
+    try:
+        if side == "client":
+            c.bind_simple()
+        else:
+            c.receive(rfc4511.encode({"kind": "bindRequest", "id": 2**30 + 11, "controls": [], "version": 3, "name": "", "auth": ("simple", "")}))
+    except LDAPError as e:
+        if side == "server" and not isinstance(e, ProtocolError):
+            return f"!{type(e).__name__}"
+        return False
+    except BaseException as e:
+        return f"!{type(e).__name__}"
+    return True
+
+
 def in_progress_set(sess: t.Any, side: str, candidates: t.Iterable[int]) -> t.Dict[int, t.Any]:
     out: t.Dict[int, t.Any] = {}
     if state(sess) == "CLOSED":
